@@ -93,7 +93,17 @@ def ensure_build():
     fp = grammar_fingerprint()
     old = open(stamp).read().strip() if os.path.exists(stamp) else ""
     env = {"CARGO_NET_OFFLINE": "true"}
-    if old != fp and os.path.isdir(os.path.join(HARNESS, "target")):
+    # cargo decides freshness by modification times: a tree whose files are OLDER than the last build (the
+    # link now points at another tree, a change was reverted with its old time stamps) would be taken for
+    # up to date.  The library is rebuilt whenever the tree (path, HEAD, uncommitted changes) is not the
+    # one that was built last.
+    tstamp = os.path.join(HARNESS, "target", ".tree-fingerprint")
+    tfp = REPO + " " + repo_fingerprint()
+    told = open(tstamp).read().strip() if os.path.exists(tstamp) else ""
+    if (old != fp or told != tfp) and os.path.isdir(os.path.join(HARNESS, "target")):
+        sh(["cargo", "clean", "--profile", "plain", "--offline", "-p", "iref-core", "-p", "iref", "-p", "iref-macros"],
+           cwd=HARNESS, env=env, stdout=subprocess.DEVNULL, stderr=subprocess.DEVNULL)
+    if (old != fp or told != tfp) and os.path.isdir(os.path.join(HARNESS, "target")):
         # cargo does not see grammar.abnf / *.aut.cbor: force the proc-macro to run again
         sh(["cargo", "clean", "--release", "--offline", "-p", "iref-core", "-p", "iref", "-p", "iref-macros"],
            cwd=HARNESS, env=env, stdout=subprocess.DEVNULL, stderr=subprocess.DEVNULL)
@@ -114,6 +124,8 @@ def ensure_build():
     os.makedirs(os.path.dirname(stamp), exist_ok=True)
     with open(stamp, "w") as fh:
         fh.write(grammar_fingerprint())
+    with open(tstamp, "w") as fh:
+        fh.write(tfp)
     log("harness built from %s in %.1fs" % (REPO, time.time() - t0))
 
 
